@@ -9,7 +9,7 @@ ESCAPES = ["\\n", "\\t", "\\\\", "\\'", '\\"', "\\x41", "\\101", "\\u00e9", "\\N
 NONASCII = ["é", "日本", "😀"]
 EXPRS = ["a", "b", "a.b", "a[0]", "f(a)", "f(a, b=1)", "a + b", "a if b else c", "-a", "not a", "a, b", "*a, b", "(a)", "[a, b]", " {1: 2}[1] ", " {a} ", "(lambda: 1)()", "(x := 1)", "a!=b", "a == b",
          "a[1:2]", "a < b", "(yield)", "await a", "1.5", "0x1F", "None", "...", "a @ b", "a ** -b", "f(*a, **k)", "a.b.c(d)[e]", "lambda_", "(a, (b, c))", "{**a}", "[x for x in y]", "{k: v for k, v in z}"]
-SPEC_TEXT = ["=^10", "=", "=+8.2f", ">10", "<5", "^8", "0.2f", ".3", "x", "#x", ",", "_", "%Y-%m-%d", "%H:%M", "10", "08.3f", "s", "+", " ", "\"^10", "b:c", "é>4"]
+SPEC_TEXT = ["=^10", "=", "=+8.2f", ">10", "<5", "^8", "0.2f", ".3", "x", "#x", ",", "_", "%Y-%m-%d", "%H:%M", "10", "08.3f", "s", "+", " ", "\"^10", "b:c", "é>4", "\\N{DIGIT ONE}>4", "\\t", "\\x41^9", "'", "\\'", "\\\\"]
 
 
 class FGen:
@@ -17,6 +17,7 @@ class FGen:
         self.r = rnd
         self.nonascii = nonascii
         self.feats: set[str] = set()
+        self.raw = False  # inside a raw f-string (innermost literal being generated)
 
     def p(self, x):
         return self.r.random() < x
@@ -50,6 +51,10 @@ class FGen:
             return self.pick(["\na\n", "a +\n b", "f(a,\n  b)", "a # comment\n", "\n [1,\n 2]\n"])
         if k < 0.93:
             self.feats.add("backslash-in-field")
+            if self.p(0.4):
+                # a backslash-newline inside the field (allowed in single-quoted f-strings too): continues the field only
+                self.feats.add("continuation-in-field")
+                return self.pick(["a\\\n+ b", "a + \\\nb", "a \\\n", "\\\na", "f(a, \\\n b)"])
             return self.pick(['"\\n".join(a)' if quote[0] == "'" else "'\\n'.join(a)", "a\\\n+ b" if len(quote) == 3 else "a"])
         return f"{self.pick(EXPRS)} {self.pick(['+', 'or', 'if x else', '-'])} {self.pick(EXPRS)}"
 
@@ -62,8 +67,13 @@ class FGen:
                 parts.append(inner)
             else:
                 t = self.pick(SPEC_TEXT)
-                if quote[0] in t and len(quote) == 1:
+                if len(quote) == 1 and __import__("re").search(r"(?<!\\)" + quote[0], t):
                     t = ">4"
+                if "\\" in t:
+                    if self.raw:
+                        t = "^7"  # CPython 3.12.1 decodes the escapes of a spec even in a raw f-string: not something to imitate
+                    else:
+                        self.feats.add("escape-in-spec")
                 if not t.isascii():
                     if not self.nonascii:
                         t = "^6"
@@ -101,7 +111,10 @@ class FGen:
             t = self.pick(ESCAPES)
             if raw:
                 # in a raw literal a backslash is text: '\N{a}' is '\N' + a field, '\{a}' is '\' + a field
-                t = self.pick(["\\d", "\\N{a}", "\\N{a!r}", "\\{a}", "\\x41", "\\n{b}", "\\\\", "\\N"])
+                # (a backslash still keeps the quote character after it inside the literal: rf'\'{y}' is one literal)
+                t = self.pick(["\\d", "\\N{a}", "\\N{a!r}", "\\{a}", "\\x41", "\\n{b}", "\\\\", "\\N", "\\" + quote[0], "[\\" + quote[0] + "]{y}+", "\\" + quote[0] + "{y}\\" + quote[0]])
+                if quote[0] in t:
+                    self.feats.add("raw-backslash-quote")
                 if "{" in t:
                     self.feats.add("field")
         elif k < 0.8:
@@ -118,7 +131,7 @@ class FGen:
             t = self.pick(["\n", "x\ny", "\n\n"])
         else:
             t = self.pick(PLAIN)
-        if quote[0] in t and len(quote) == 1 and not t.startswith("\\"):
+        if len(quote) == 1 and __import__("re").search(r"(?<!\\)" + quote[0], t):  # an unescaped quote would end the literal
             t = "q"
         return t
 
@@ -133,8 +146,10 @@ class FGen:
         if prefix.lower() != "f":
             self.feats.add("raw-prefix" if "r" in prefix.lower() else "prefix-F")
         parts = []
+        outer_raw, self.raw = self.raw, "r" in prefix.lower()
         for _ in range(self.r.randint(0, 4)):
             parts.append(self.field(quote, d) if self.p(0.55) else self.text(prefix, quote))
+        self.raw = outer_raw
         body = "".join(parts)
         if body.endswith(quote[0]) and not body.endswith("\\" + quote[0]):
             body += " "
